@@ -37,7 +37,7 @@ def gen_world(rng, i, tier):
     w["rules"] = rng.pick([["owner"], ["group"], ["symlink"], ["owner", "group"], ["owner", "symlink"], ["group", "symlink"], ["owner", "group", "symlink"], []])
     w["req_uid"] = rng.pick([0, 4242])
     w["req_gid"] = rng.pick([0, 4141])
-    w["setter_history"] = rng.pick(["plain", "set-reset-set", "other-first"])
+    w["setter_history"] = rng.pick(["plain", "set-reset-set", "other-first", "allow-symlinks-explicit", "forbid-then-allow", "allow-first"])
     w["attr_seed"] = rng.getrandbits(32)
     w["init"] = rng.pick(["null", "sentinel"])
     # /dev/null links inside the tree are symbolic links and would offend the no-symlink rule by themselves:
@@ -109,6 +109,15 @@ def security_ops(world):
             o.append({"op": "security", "what": "symlinks", "v": False})
         return o
     h = world["setter_history"]
+    allow = {"op": "security", "what": "symlinks", "v": True}
+    forbid = {"op": "security", "what": "symlinks", "v": False}
+    if h == "allow-symlinks-explicit" and "symlink" not in rules:
+        return setters() + [allow]                 # stating the default after the other restrictions
+    if h == "forbid-then-allow" and "symlink" not in rules:
+        s_ = setters()
+        return s_[:1] + [forbid] + s_[1:] + [allow]    # links forbidden for a while, then allowed again
+    if h == "allow-first":
+        return [allow] + setters()
     if h == "set-reset-set":
         ops += setters() + [{"op": "security", "what": "reset"}]
     elif h == "other-first":
